@@ -375,6 +375,28 @@ class Program:
                 out.setdefault(m.group(1), int(m.group(2)))
         return out
 
+    def impl_trait_args(self, item_name):
+        """generic arguments of the trait an impl block implements, as written (`impl From<u8> for Square` -> 'u8'); None if
+        there are none / unknown / macro metavariables"""
+        m = re.search(r'<impl at ([^:>]+):(\d+):(\d+): (\d+):(\d+)>', item_name)
+        if not m:
+            return None
+        try:
+            import os
+            root = self.src_root or '/repo'
+            lines = open(os.path.join(root, m.group(1))).read().split('\n')
+            l1, c1, l2, c2 = int(m.group(2)), int(m.group(3)), int(m.group(4)), int(m.group(5))
+            text = lines[l1 - 1][c1 - 1:c2 - 1] if l1 == l2 else ' '.join([lines[l1 - 1][c1 - 1:]] + lines[l1:l2 - 1] + [lines[l2 - 1][:c2 - 1]])
+            mm = re.match(r'^impl(?:<[^>]*>)?\s+(.+?)\s+for\s+(.+?)\s*$', text.strip())
+            if mm:
+                tr = mm.group(1).strip()
+                g = re.search(r'<(.*)>$', tr)
+                if g and '$' not in g.group(1):
+                    return g.group(1).replace(' ', '')
+        except Exception:
+            pass
+        return None
+
     def impl_trait(self, item_name):
         """last path segment of the trait an impl block implements (`impl fmt::Display for X` -> Display; a derive's span
         is the derive name itself); None for inherent impls / unknown"""
@@ -1867,12 +1889,15 @@ class Executor:
         # <T as Trait<..>>::method::<G>  -> Self type T, method
         self_ty = None
         want_trait = None
+        want_targs = None
         m = re.match(r'^<(.*)>::([A-Za-z_0-9]+)(::<.*>)?$', name)
         method = None
         if m and mirparse.find_top(m.group(1), ' as ') >= 0:
             k = mirparse.find_top(m.group(1), ' as ')
             self_ty = m.group(1)[:k]
             want_trait = re.sub(r'<.*>$', '', m.group(1)[k + 4:].strip()).split('::')[-1]
+            wg = re.search(r'<(.*)>$', m.group(1)[k + 4:].strip())
+            want_targs = wg.group(1).replace(' ', '') if wg else None
             method = m.group(2)
         else:
             parts = mirparse.split_top(name, '::')
@@ -1925,6 +1950,13 @@ class Executor:
                         score += 4
                     else:
                         continue
+                    ita = prog.impl_trait_args(it.name)
+                    if ita is not None and want_targs is not None:
+                        strip = lambda t: re.sub(r'\b(?:\w+::)+', '', t)          # drop path prefixes: std::string::String -> String
+                        if strip(ita) == strip(want_targs):
+                            score += 4
+                        elif re.fullmatch(r'[&\w\[\]; ]+', strip(ita)) and re.fullmatch(r'[&\w\[\]; ]+', strip(want_targs)):
+                            continue
             if self_ty is None:
                 parts = mirparse.split_top(name, '::')
                 while parts and parts[-1].startswith('<'):
